@@ -301,6 +301,8 @@ def jobs(tier):
     for (bs, nbs, k) in [(2, None, 1), (2, 1, 1), (3, 2, 0)]:
         add("complex-2x1-N3-bs%d-neg%s-k%d" % (bs, nbs, k), kind="complex", n=2, h=1, a=None, data=d3, bases=b3, bs=bs, nbs=nbs, k=k)
     add("mixed-111-N3-bs2-neg1-k1", kind="mixed", n=1, h=1, a=1, data=[[0], [1], [1]], bases=["Z", "Y", "Z"], bs=2, nbs=1, k=1)
+    # states built from a user-supplied RBM are trained by the same rule (each network keeps its own gradient and its own step)
+    add("complex-module-2x1-N3-bs2-k1", kind="complex-module", n=2, h=1, a=None, data=d3, bases=b3, bs=2, nbs=None, k=1)
     ropts = dict(env_range=0.75, var_ranges=[["lr", 0.05, 0.5]], timeout_ms=120000)
     J.append(dict(name="two-runs-positive-2x2", module="checks.c06", scenario="two_runs", kwargs=dict(kind="positive", n=2, h=2, a=None, data=d3, bases=None), opts=dict(ropts)))
     J.append(dict(name="two-runs-complex-2x1", module="checks.c06", scenario="two_runs", kwargs=dict(kind="complex", n=2, h=1, a=None, data=d3, bases=b3), opts=dict(ropts)))
